@@ -166,8 +166,9 @@ def _convert_constant(node: ast.Constant) -> libsbml.ASTNode:
             return libsbml.ASTNode(libsbml.AST_CONSTANT_TRUE)
         return libsbml.ASTNode(libsbml.AST_CONSTANT_FALSE)
 
+    # Always as a real: libsbml stores Python ints as 32-bit integers
     sbml_node = libsbml.ASTNode(libsbml.AST_REAL)
-    sbml_node.setValue(value)
+    sbml_node.setValue(float(value))
     return sbml_node
 
 
